@@ -2,6 +2,7 @@ package main
 
 import (
 	"context"
+	"encoding/json"
 	"fmt"
 
 	v3routepb "github.com/envoyproxy/go-control-plane/envoy/config/route/v3"
@@ -121,6 +122,10 @@ func pickViaDecoded(ws []uint32, n int) (counts []int, errs, panics int, panicMs
 	stub.res[stubKey{xdsresource.ListenerType, "svc"}] = &xdsresource.ListenerResource{
 		NetworkFilters: []*xdsresource.NetworkFilter{{FilterType: xdsresource.NetworkFilterTypeHTTP, RouteConfigName: "rc"}},
 	}
+	// the cached table is rendered as JSON first (what a dump of the manager does): reading a resource must not change it
+	if _, jerr := json.MarshalIndent(map[string]interface{}{"rc": res["rc"]}, "", "    "); jerr != nil {
+		return make([]int, len(ws)), n, 0, ""
+	}
 	router := xdssuite.NewXDSRouter()
 	to := rpcinfo.NewEndpointInfo("svc", "method", nil, nil)
 	ri := rpcinfo.NewRPCInfo(nil, to, rpcinfo.NewInvocation("svc", "method", "pkg"), rpcinfo.NewRPCConfig(), nil)
@@ -190,6 +195,8 @@ func runC09(c *ctx) {
 	add(1<<32-2, 1)
 	add(3000000000, 1000000000)
 	add(1<<31, 1<<31) // wraps to 0
+	add(1, 198, 1)    // shares below one per cent
+	add(3, 1000, 2, 995)
 	// random vectors with small totals (where any shift of one unit moves >= 1/16 of the mass)
 	rounds := 40 * c.budget
 	for i := 0; i < rounds; i++ {
@@ -246,7 +253,8 @@ func runC09(c *ctx) {
 	}
 	// the same through the decoder, for the vectors where the control plane can express them (at least one cluster)
 	for k, v := range vectors {
-		if len(v) == 0 || (k%3 != 0 && len(v) != 2) {
+		_ = k
+		if len(v) == 0 {
 			continue
 		}
 		counts, errs, panics, msg := pickViaDecoded(v, n)
